@@ -26,6 +26,28 @@ pub fn print_signature_counts(out: &[Violation]) {
     println!("SIGCOUNT {{{}}}", body.join(", "));
 }
 
+thread_local! {
+    static CURRENT_SYSTEM: std::cell::RefCell<Option<String>> = const { std::cell::RefCell::new(None) };
+}
+
+/// Remember the system the oracle is working on (see `arm_crash_reporter`).
+pub fn note_current(sys: &System) {
+    CURRENT_SYSTEM.with(|c| *c.borrow_mut() = Some(enc_system_json(sys)));
+}
+
+/// Panic hook for oracles that call the real code directly: a panic of the real code on a generated
+/// system kills the oracle process before it can print its STATS line; the hook prints that system
+/// as a VIOLATION line first, so the check has a concrete failing input instead of a bare crash.
+pub fn arm_crash_reporter(property: &'static str) {
+    std::panic::set_hook(Box::new(move |info| {
+        let sys = CURRENT_SYSTEM.with(|c| c.borrow().clone()).unwrap_or_else(|| "null".to_owned());
+        let msg = json_escape(&info.to_string());
+        println!(
+            "VIOLATION {{\"property\": \"{property}\", \"kind\": \"impl-violates-oracle\", \"what\": \"the real code panicked while the oracle was working on this system (a variant of it - reordered, renumbered, re-solved, a sub-list - may be the direct cause): {msg}\", \"signature\": \"uncaught-panic-in-oracle\", \"system\": {sys}, \"extra\": \"\"}}"
+        );
+    }));
+}
+
 pub fn enc_system_json(sys: &System) -> String {
     let reqs: Vec<String> = sys
         .reqs
